@@ -377,7 +377,7 @@ def work(task):
         for kw, text, _ in steps:
             lines.append('    %s %s' % (kw.capitalize(), text))
         lines.append('')
-    d = tempfile.mkdtemp(prefix='c19-', dir='/dev/shm')
+    d = tempfile.mkdtemp(prefix='c19-', dir='/dev/shm' if os.path.isdir('/dev/shm') else None)
     try:
         fpath = os.path.join(d, 'g.feature')
         with open(fpath, 'w') as f:
